@@ -215,3 +215,9 @@ pub mod docs {
     #[doc = include_str!("../docs/security.md")]
     pub mod security {}
 }
+
+/// Verification hooks (only compiled with `--cfg rten_verif`): re-exports of
+/// crate-private items so an external harness can call them directly.
+#[cfg(rten_verif)]
+#[doc(hidden)]
+pub mod verif {}
